@@ -659,7 +659,7 @@ func cmdCheck(args []string) int {
 }
 
 // boundedHarness: properties with a bounded stand-in, and the package whose replay template holds TestVerifBounded.
-var boundedHarness = map[string]string{"C05": "internal/store", "C06": "internal/store"}
+var boundedHarness = map[string]string{"C05": "internal/store", "C06": "internal/store", "C09": "internal/store", "C10": "internal/store"}
 
 // runBounded runs TestVerifBounded of the package's replay template (go test -overlay) for the property.
 func runBounded(c *Ctx, prop, tier, pkg, replayDir string) (map[string]any, [][2]string) {
@@ -705,6 +705,9 @@ func runBoundedOverlay(c *Ctx, prop, tier, pkg, replayDir string, extra map[stri
 			rest := strings.TrimSpace(l[i+len("BOUNDED-FAIL:"):])
 			id, msg, _ := strings.Cut(rest, ": ")
 			fails = append(fails, [2]string{id, msg})
+		}
+		if i := strings.Index(l, "BOUNDED-BOUND:"); i >= 0 {
+			info["bound"] = strings.TrimSpace(l[i+len("BOUNDED-BOUND:"):])
 		}
 		if i := strings.Index(l, "BOUNDED-DONE:"); i >= 0 {
 			done = true
